@@ -27,6 +27,9 @@ def main(argv=None):
     except ModuleNotFoundError:
         print(f"ANALYSIS-ERROR property={pid} no check module")
         return 2
+    except Exception as e:  # noqa: BLE001 - a broken checker is an analysis error, never a violation
+        print(f"ANALYSIS-ERROR property={pid} checker failed to load: {type(e).__name__}: {e}")
+        return 2
     ck = Checker(pid, args.tier, args.repo, seed)
     try:
         mod.run(ck)
@@ -43,4 +46,11 @@ def main(argv=None):
 
 
 if __name__ == "__main__":
-    sys.exit(main())
+    try:
+        rc = main()
+    except SystemExit:
+        raise
+    except BaseException as e:  # noqa: BLE001
+        print(f"ANALYSIS-ERROR {type(e).__name__}: {e}")
+        rc = 2
+    sys.exit(rc)
